@@ -319,11 +319,57 @@ func runBuild(c *Ctx) {
 	if m := vs("SignatureValues"); m != nil {
 		c.R.Func(core.FuncName(m))
 		ok := false
-		for _, ci := range core.Calls(m, "(reflect.Value).Set") {
+		// the rendered value is valueOrZero(e): called directly, or through the strategy parameter of a private packing
+		// helper to which this method hands (*Value).valueOrZero
+		isValueOrZero := func(vcl *ssa.Call) bool {
+			if cal := vcl.Common().StaticCallee(); cal != nil {
+				return cal.Name() == "valueOrZero"
+			}
+			hp, isP := vcl.Common().Value.(*ssa.Parameter)
+			if !isP || !p.PrivateHelper(hp.Parent()) {
+				return false
+			}
+			h := hp.Parent()
+			found := false
+			for _, site := range core.Calls(m) {
+				if site.Common().StaticCallee() != h {
+					continue
+				}
+				for j, q := range h.Params {
+					if q != hp || j >= len(site.Common().Args) {
+						continue
+					}
+					var fn *ssa.Function
+					switch x := site.Common().Args[j].(type) {
+					case *ssa.Function:
+						fn = x
+					case *ssa.MakeClosure:
+						fn, _ = x.Fn.(*ssa.Function)
+					}
+					if fn == nil {
+						return false
+					}
+					root := fn
+					if fn.Synthetic != "" {
+						for _, ci := range core.Calls(fn) {
+							if cal := ci.Common().StaticCallee(); cal != nil {
+								root = cal
+							}
+						}
+					}
+					if root.Name() != "valueOrZero" {
+						return false
+					}
+					found = true
+				}
+			}
+			return found
+		}
+		for _, ci := range p.RegionCalls(m, "(reflect.Value).Set") {
 			a := ci.Common().Args
 			fcl, isF := a[0].(*ssa.Call)
 			vcl, isV := a[1].(*ssa.Call)
-			if isF && isV && core.CalleeName(fcl.Common()) == "(reflect.Value).Field" && vcl.Common().StaticCallee() != nil && vcl.Common().StaticCallee().Name() == "valueOrZero" {
+			if isF && isV && core.CalleeName(fcl.Common()) == "(reflect.Value).Field" && isValueOrZero(vcl) && len(vcl.Common().Args) > 0 {
 				if ifr, isI := core.AsFieldLoad(fcl.Common().Args[1]); isI && ifr.Field == "index" {
 					e := ifr.Base
 					if fa, ok2 := e.(*ssa.FieldAddr); ok2 {
